@@ -40,7 +40,13 @@ static bool service_with_event(int nev)
         }
         return false;
 }
-static uint32_t edge32(void) { static const uint32_t e[] = { 0, 1, 0x7f, 0x80, 0xff, 0x100, 0x7fff, 0x8000, 0xffff, 0x10000, 0x7fffffff, 0x80000000u, 0xffffffffu, 0x80000001u, 0xfffffffeu }; return chance(60) ? e[rn(15)] + rn(3) - 1 : (uint32_t)(rnd() >> rn(64)); }
+static uint32_t edge32(void)
+{
+        static const uint32_t e[] = { 0, 1, 0x7f, 0x80, 0xff, 0x100, 0x7fff, 0x8000, 0xffff, 0x10000, 0x7fffffff, 0x80000000u, 0xffffffffu, 0x80000001u, 0xfffffffeu,
+                                      10, 100, 1000, 10000, 100000, 1000000, 10000000, 100000000, 1000000000, 0x1000, 0x100000, 0x1000000, 0x10000000 };      /* digit counts change at the powers of ten / sixteen */
+        uint32_t x = chance(60) ? e[rn(sizeof e / sizeof e[0])] + rn(3) - 1 : (uint32_t)(rnd() >> rn(64));
+        return chance(15) ? (uint32_t)(0u - x) : x;
+}
 static void rand_spec(int j)
 {
         SP[j].type = (int)rn(5);
@@ -53,6 +59,7 @@ static void rand_spec(int j)
                         uint8_t ch; do { unsigned r = rn(10); ch = r == 0 ? '"' : r == 1 ? '\\' : r == 2 ? '\n' : r == 3 ? ',' : r == 4 ? (uint8_t)(0x80 + rn(128)) : r == 5 ? '?' : (uint8_t)(1 + rn(255)); } while (ch == 0 || ch == '\r');
                         SP[j].val[b] = b < L ? ch : 0;
                 }
+                if (L >= 3 && chance(12)) { static const char *nasty[] = { "+++", "AT+", "\x1b[C", "\\\\\"", "=?", ",,," }; const char *q = nasty[rn(6)]; size_t ql = strlen(q); if (ql <= L) memcpy(SP[j].val + rn((unsigned)(L - ql + 1)), q, ql); }      /* character runs that mean something elsewhere (modem escape, command prefix, cursor key, ...): inside a string they are data */
                 if (chance(50)) for (size_t b = L + 1; b < SP[j].size; b++) SP[j].val[b] = (uint8_t)rnd();   /* garbage behind the terminator must not matter */
         }
 }
